@@ -235,6 +235,25 @@ func specHybrid(b []byte, width, count int) (out []int32, ok bool) {
 	return out, true
 }
 
+// ---------- model codec (C02 compressed-pages harness) ----------
+
+// specModelCodec: the file was written with the snappy codec replaced by the
+// model below (a 2-byte prefix and a 1-byte suffix around the data).
+var specModelCodec bool
+
+func specCompress(dst, src []byte) []byte {
+	dst = append(dst[:0], 0xC0, 0xDE)
+	dst = append(dst, src...)
+	return append(dst, 0xED)
+}
+
+func specUncompress(b []byte) ([]byte, bool) {
+	if len(b) < 3 || b[0] != 0xC0 || b[1] != 0xDE || b[len(b)-1] != 0xED {
+		return nil, false
+	}
+	return b[2 : len(b)-1], true
+}
+
 // ---------- decoded column ----------
 
 type specColumn struct {
@@ -304,7 +323,11 @@ func specReadChunk(file []byte, meta *specVal, maxRep, maxDef int) (col *specCol
 	col = &specColumn{}
 	physical := meta.mustInt(1, "column type")
 	codec := meta.mustInt(4, "codec")
-	vAssert(codec == 0, "codec is UNCOMPRESSED as configured")
+	if specModelCodec {
+		vAssert(codec == 1, "codec is SNAPPY as configured")
+	} else {
+		vAssert(codec == 0, "codec is UNCOMPRESSED as configured")
+	}
 	numValues := meta.mustInt(5, "num_values")
 	totalCompressed := meta.mustInt(7, "total_compressed_size")
 	totalUncompressed := meta.mustInt(6, "total_uncompressed_size")
@@ -337,7 +360,9 @@ func specReadChunk(file []byte, meta *specVal, maxRep, maxDef int) (col *specCol
 		ptype := h.mustInt(1, "page type")
 		usize := h.mustInt(2, "uncompressed_page_size")
 		csize := h.mustInt(3, "compressed_page_size")
-		vAssert(usize == csize, "sizes agree for an uncompressed page")
+		if !specModelCodec {
+			vAssert(usize == csize, "sizes agree for an uncompressed page")
+		}
 		vAssert(csize >= 0 && int64(r.pos)+csize <= end, "page body lies inside the column chunk")
 		if csize < 0 || int64(r.pos)+csize > end {
 			return col, pages, false
@@ -359,7 +384,13 @@ func specReadChunk(file []byte, meta *specVal, maxRep, maxDef int) (col *specCol
 			dn := int(dh.mustInt(1, "dictionary num_values"))
 			enc := dh.mustInt(2, "dictionary encoding")
 			vAssert(enc == 0 || enc == 2, "dictionary values are PLAIN")
-			vAssert(dict.plain(physical, body, dn), "dictionary page holds exactly num_values PLAIN values")
+			plainBody := body
+			if specModelCodec {
+				var okc bool
+				plainBody, okc = specUncompress(body)
+				vAssert(okc && int64(len(plainBody)) == usize, "dictionary page decompresses to uncompressed_page_size bytes")
+			}
+			vAssert(dict.plain(physical, plainBody, dn), "dictionary page holds exactly num_values PLAIN values")
 			pg.isDict = true
 			col.dictPages++
 		case 0: // DATA_PAGE
@@ -376,6 +407,15 @@ func specReadChunk(file []byte, meta *specVal, maxRep, maxDef int) (col *specCol
 			nv := int(dh.mustInt(1, "num_values"))
 			enc := dh.mustInt(2, "encoding")
 			b := body
+			if specModelCodec {
+				// a v1 page is compressed as a whole, levels included
+				var okc bool
+				b, okc = specUncompress(body)
+				vAssert(okc && int64(len(b)) == usize, "v1 page decompresses to uncompressed_page_size bytes")
+				if !okc {
+					return col, pages, false
+				}
+			}
 			var rep, def []int32
 			okl := true
 			if maxRep > 0 {
@@ -457,7 +497,20 @@ func specReadChunk(file []byte, meta *specVal, maxRep, maxDef int) (col *specCol
 				}
 			}
 			vAssert(nulls == nn, "num_nulls counts the values below the maximum definition level")
-			if !specPageValues(col, &dict, physical, enc, body[rl+dl:], nv, maxRep, maxDef, rep, def) {
+			values := body[rl+dl:]
+			if specModelCodec {
+				// v2: the levels are never compressed, the values are unless is_compressed says otherwise
+				if flag := dh.field(7); flag == nil || flag.i == 1 {
+					var okc bool
+					values, okc = specUncompress(values)
+					vAssert(okc, "v2 values section decompresses")
+					if !okc {
+						return col, pages, false
+					}
+				}
+				vAssert(int64(rl+dl+len(values)) == usize, "uncompressed_page_size counts the levels and the uncompressed values")
+			}
+			if !specPageValues(col, &dict, physical, enc, values, nv, maxRep, maxDef, rep, def) {
 				return col, pages, false
 			}
 			pg.numRows = specCountRows(rep, nv, maxRep)
